@@ -368,7 +368,7 @@ PROPS = {
                 "markers of the k-1 earlier ones; no opener errors, panics, dies or hangs (watchdog => inconclusive). "
                 "non-trivial = run with a forced ordering or one in which an opener demonstrably waited for another.",
         "run": generic(thorough_profiles=(), pre=build_shim, extra_sets=("shim=" + SHIM,), nshards=8),
-        "floors": {"any": {"runs_followed_by_a_final_opener_that_found_everything": 100, "runs_in_which_a_holder_extended_the_file_with_others_queued": 30, "runs_with_forced_ordering": 12, "runs_on_file_not_yet_created": 15, "runs_on_existing_file": 10, "runs_with_3_processes": 5,
+        "floors": {"any": {"runs_with_a_killed_holder_after_which_everything_committed_was_found": 20, "runs_followed_by_a_final_opener_that_found_everything": 100, "runs_in_which_a_holder_extended_the_file_with_others_queued": 30, "runs_with_forced_ordering": 12, "runs_on_file_not_yet_created": 15, "runs_on_existing_file": 10, "runs_with_3_processes": 5,
                            "runs_in_which_an_opener_had_to_wait_for_another": 10}},
         "assumptions": ["flock is issued by a raw system call and cannot be gated itself; the libc calls on both sides of it are"],
     },
